@@ -11,7 +11,8 @@ Definition c10_strings (m : mapping) (t : tstruct) : sx := c10_strings_sx m t.
 Definition c10_string_oracle (a b c d : str) : sx := c10_string_oracle_sx a b c d.
 Definition c10_in_dom (m : mapping) (t : tstruct) : bool := c10_dom m t.
 Definition c10_allowed (t : tstruct) : sx := sx_tags (allowed_for_type t).
+Definition c10_compare (a b : str) : sx := c10_compare_sx a b.
 Definition c10_struct_of_rty (r : rty) : option tstruct := c10_structure r.
 
 Extraction Language OCaml.
-Extraction "tt_c10.ml" c10_project c10_tcase c10_strings c10_string_oracle c10_in_dom c10_allowed c10_struct_of_rty.
+Extraction "tt_c10.ml" c10_project c10_tcase c10_strings c10_string_oracle c10_in_dom c10_allowed c10_struct_of_rty c10_compare.
